@@ -38,7 +38,7 @@ def kindOf : String → Except String Kind
 def catOf : String → Except String Cat
   | "none" => pure .none | "number" => pure .number | "string" => pure .string | "scalar" => pure .scalar
   | "any" => pure .any | "untyped" => pure .untyped | "coll" => pure .coll | "struct" => pure .struct
-  | "inline" => pure .inline | "wrap" => pure .wrap | "enum" => pure .enum
+  | "inline" => pure .inline | "wrap" => pure .wrap | "enum" => pure .enum | "tupl" => pure .tupl
   | s => throw s!"unknown cat {s}"
 
 partial def shapeOf (j : Json) : Except String Shape :=
